@@ -77,7 +77,7 @@ func main() {
 		}
 		defer pool.Close()
 		rp := hk.NewReporter("DBG")
-		hk.VerifDir = os.TempDir()
+		hk.OutDir = os.TempDir()
 		sum := conc.RunItems(rp, pool, []conc.Item{{Name: os.Args[2], Params: os.Args[3], MaxBound: b}}, hk.NewBudget(30*time.Minute), true)
 		fmt.Printf("executions %d outcomes %v\n", sum.Execs, sum.Outcomes)
 	case "replay":
